@@ -4,6 +4,7 @@
 #include <string.h>
 #include <cmath>
 #include <limits>
+#include <fstream>
 
 namespace photospline{
 	
@@ -470,6 +471,13 @@ void splinetable<Alloc>::write_fits(const std::string& filePath) const{
 	
 	write_fits_core(fits);
 	
+	//Find out how large the complete file must be: it ends with the data of
+	//the HDU written last.
+	LONGLONG headstart=0, datastart=0, expected_size=0;
+	fits_get_hduaddrll(fits, &headstart, &datastart, &expected_size, &error);
+	if (error != 0)
+		throw std::runtime_error("Failed to determine size of FITS file");
+	
 	//Most data only reaches the file when it is flushed and closed, so errors
 	//at that point must not be swallowed.
 	cleanup.fits=nullptr;
@@ -478,6 +486,16 @@ void splinetable<Alloc>::write_fits(const std::string& filePath) const{
 		fits_report_error(stderr, error);
 		remove(filePath.c_str());
 		throw std::runtime_error("CFITSIO failed to finish writing "+filePath+": Error "+std::to_string(error));
+	}
+	//CFITSIO does not report all failures to flush or position the file, so
+	//make sure that all of the data arrived.
+	{
+		std::ifstream written(filePath.c_str(), std::ios::binary|std::ios::ate);
+		if (!written || (LONGLONG)written.tellg() != expected_size){
+			written.close();
+			remove(filePath.c_str());
+			throw std::runtime_error("Writing "+filePath+" failed: the file is incomplete");
+		}
 	}
 }
 	
